@@ -74,8 +74,9 @@ type genCtx struct {
 	Versions  map[string][]string // key -> version IDs ever
 	Uploads   []*prog.MUpload
 	Tokens    []string
-	Hostile   int  // 0..100: percentage of hostile parameter values
-	HostStyle bool // restrict to requests expressible in virtual-host form (single-label buckets, no RawPath)
+	Live      []string // "bucket\x00key" of the keys that are live after the setup
+	Hostile   int      // 0..100: percentage of hostile parameter values
+	HostStyle bool     // restrict to requests expressible in virtual-host form (single-label buckets, no RawPath)
 	// NoDotKeys keeps keys with empty, "." or ".." segments out of the stream (file-system
 	// backends: such keys are C10's business, and on afero's MemMapFs a stored key "." makes
 	// the directory walk recurse until the process dies, which no in-process harness survives).
@@ -98,10 +99,14 @@ func ctxFromRunner(r *prog.Runner, hostile int) *genCtx {
 		for k, mk := range mb.Keys {
 			c.Keys = append(c.Keys, k)
 			c.Versions[k] = append(c.Versions[k], mk.Ever...)
+			if mb.Live(k) != nil {
+				c.Live = append(c.Live, b+"\x00"+k)
+			}
 		}
 	}
 	sortStrings(c.Buckets)
 	sortStrings(c.Keys)
+	sortStrings(c.Live)
 	c.Keys = dedup(append(c.Keys, "a", "d/x", "new-key"))
 	c.Uploads = r.M.Uploads
 	for _, k := range c.Keys {
@@ -246,7 +251,7 @@ func (c *genCtx) xmlBody(rt *rapid.T, valid string) []byte {
 var families = []string{"listBuckets", "listBucket", "listBucket", "listBucketV2", "listBucketV2", "location", "getVersioning", "putVersioning", "listVersions", "listVersions",
 	"createBucket", "deleteBucket", "headBucket", "deleteMulti", "deleteMulti", "browserUpload", "getObject", "getObject", "getObject", "headObject", "putObject", "putObject", "putObject",
 	"copyObject", "copyObject", "chunkedPut", "deleteObject", "getVersion", "headVersion", "deleteVersion", "initiate", "uploadPart", "uploadPart", "complete", "complete", "abort",
-	"listParts", "listParts", "listUploads", "listUploads", "options", "oddMethod", "oddSubresource", "rawPath"}
+	"listParts", "listParts", "listUploads", "listUploads", "options", "oddMethod", "oddSubresource", "rawPath", "conditionalGet", "conditionalGet"}
 
 // genRequest draws one logical request.
 func genRequest(rt *rapid.T, c *genCtx) lreq {
@@ -376,16 +381,34 @@ func genRequest(rt *rapid.T, c *genCtx) lreq {
 			}
 		}
 		addH("Content-Type", ct)
-	case "getObject", "headObject":
+	case "getObject", "headObject", "conditionalGet":
 		l.Method, l.Key = "GET", k
-		if fam == "headObject" {
+		if fam == "headObject" || (fam == "conditionalGet" && maybe("condhead?", 30)) {
 			l.Method = "HEAD"
+		}
+		if fam == "conditionalGet" && len(c.Live) > 0 {
+			// conditional requests only reach the precondition logic for objects that exist
+			lk := rapid.SampledFrom(c.Live).Draw(rt, "livekey")
+			parts := strings.SplitN(lk, "\x00", 2)
+			l.Bucket, l.Key = parts[0], parts[1]
 		}
 		if maybe("range?", 50) {
 			addH("Range", c.strVal(rt, []string{"bytes=0-", "bytes=0-0", "bytes=1-2", "bytes=-1", "bytes=-100", "bytes=5-", "bytes=100-200", "bytes=2-1", "bytes=0-9223372036854775807", "bytes=5-9223372036854775807", "bytes=0-1,2-3", "bits=1-2", "bytes=-0"}))
 		}
-		if maybe("inm?", 25) {
-			addH("If-None-Match", c.strVal(rt, []string{`"` + strings.Repeat("0", 32) + `"`, "*", etagOf([]byte("x"))}))
+		if fam == "conditionalGet" || maybe("inm?", 35) {
+			// an entity-tag list per RFC 7232: elements are "tag", W/"tag" or *, comma separated;
+			// hostile variants break the element syntax
+			elems := []string{`"` + strings.Repeat("0", 32) + `"`, "*", etagOf([]byte("x")), etagOf([]byte("0123456789")), `W/"weak"`, `W/` + etagOf([]byte("dx"))}
+			if c.hostile(rt) {
+				elems = append(elems, "W/", "w/\"x\"", `"`, `""`, "", " ", "W/*", `W/"`, `"unterminated`, "W", "/", `"a"b"`, "noquotes", `W/ "x"`)
+			}
+			n := rapid.IntRange(1, 3).Draw(rt, "ninm")
+			var parts []string
+			for i := 0; i < n; i++ {
+				parts = append(parts, rapid.SampledFrom(elems).Draw(rt, "inmelem"))
+			}
+			sep := rapid.SampledFrom([]string{", ", ",", " , ", ",,"}).Draw(rt, "inmsep")
+			addH("If-None-Match", strings.Join(parts, sep))
 		}
 		if maybe("ims?", 25) {
 			addH("If-Modified-Since", c.strVal(rt, []string{"Mon, 02 Jan 2006 15:04:05 GMT", "Thu, 02 Jan 2020 03:04:05 GMT", "Fri, 02 Jan 2099 03:04:05 GMT", "yesterday"}))
